@@ -145,6 +145,7 @@ def parseOp (op : String) (fs : Fields) (pending : List PubMsg) : Except String 
   | "seek_snap" => do pure (.seekSnap (← fstr fs "sub") (← fstr fs "snap"))
   | "snapshot" => do pure (.snapshot (← fstr fs "name") (← fstr fs "sub") (← fmap fs "labels") (← fnat fs "id"))
   | "delete_snap" => do pure (.deleteSnap (← fstr fs "name"))
+  | "set_delay" => do pure (.setDelay (← fstr fs "sub") (← fint fs "d"))
   | "expire_subs" => do pure (.expireSubs (← fnat fs "max") (← fids fs "victims"))
   | "prune_completed_deliveries" => do
     pure (.pruneCompletedDeliveries (← fint fs "minage") (← fnat fs "max") (← fids fs "victims"))
